@@ -18,7 +18,7 @@ def run(ctx):
     h = codec.H()
     rng = random.Random(ctx.seed + 4)
     thorough = ctx.tier == 'thorough' or ctx.escalate
-    n = 6000 if thorough else 1200
+    n = 40000 if thorough else 1200
     ctx.coverage['rule'] = ('grids generated over the Haystack value domain (every kind in metadata, column metadata, cells, lists, dicts, nested grids; '
                             'all code points in text; boundary floats and non-finite numbers; all mapped zones incl. transition instants; depth <= 3; '
                             'versions 2.0 / 3.0); distinct by dumped text; a grid is non-trivial when it holds a non-null value')
